@@ -246,6 +246,12 @@ Section Buffer.
 
   Ltac neof := cbn [ttype tok1]; unfold TEOF, TIdent, TInt, TString, TLexOperator, TEOL, TUnindent; lia.
 
+  Ltac fin :=
+    repeat split; try lia; eauto;
+    try (let HH := fresh in intro HH; exfalso; revert HH; neof);
+    try (exfalso; match goal with H : _ = TEOF |- _ => revert H; neof end);
+    try (exfalso; match goal with H : ?a <> ?a |- _ => apply H; reflexivity end).
+
   Lemma Post_adv st t st' :
     Inv st -> pos st < pos st' -> pos st' <= n -> ttype t <> TEOF ->
     unind st' = unind st -> indents st' = indents st -> Post st (LTok t st').
@@ -298,9 +304,11 @@ Section Buffer.
     rewrite Hx in *. cbn [length] in Hlen.
     rewrite app_length. cbn [length].
     pose proof (ident_go_spec (S (S (length x) + 2)) (c :: x) [] 0) as H. cbn [length] in H.
-    destruct (ident_go isld (S (S (length x) + 2)) ((c :: x) ++ [0%N; 0%N]) [] 0) eqn:E; auto; [|apply H; lia].
-    apply ident_first in E; auto; [|lia].
-    apply Post_adv; auto; cbn [pos set_pos unind indents]; try lia. neof.
+    destruct (ident_go isld (S (S (length x) + 2)) ((c :: x) ++ [0%N; 0%N]) [] 0) eqn:E.
+    - specialize (H ltac:(lia)). apply ident_first in E; auto; [|lia].
+      apply Post_adv; auto; cbn [pos set_pos unind indents]; try lia. neof.
+    - exact I.
+    - apply H. lia.
   Qed.
 
   Lemma token_step_ok st : Inv st -> StepPost st (token_step isld B st).
@@ -312,7 +320,7 @@ Section Buffer.
     destruct (0 <? unind st) eqn:Eun.
     { apply Nat.ltb_lt in Eun. assert (pos st <= n) by lia.
       cbn [StepPost Post]. unfold M. cbn [pos indents unind ttype tval].
-      repeat split; try lia; eauto; intro HH; try (exfalso; revert HH; neof). }
+      fin. }
     apply Nat.ltb_ge in Eun.
     destruct (B_some p0) as (next & Hnext); [lia|]. rewrite Hnext.
     assert (Hpre : forall c, c <> 0%N -> exists r,
@@ -320,7 +328,7 @@ Section Buffer.
       /\ (r = true -> exists b1, byte_at B (S p0) = Some b1 /\ is_quote b1 = true /\ S p0 <= n)).
     { intros c Hc. destruct (next =? c)%N eqn:E; [|exists false; split; [reflexivity|discriminate]].
       apply N.eqb_eq in E. subst c. pose proof (B_nz _ _ Hnext Hc).
-      destruct (B_some (S p0)) as (b1 & Hb1); [lia|]. rewrite Hb1. exists (is_quote b1). split; eauto.
+      destruct (B_some (S p0)) as (b1 & Hb1); [lia|]. rewrite Hb1. exists (is_quote b1). split; [reflexivity|].
       intro. exists b1. repeat split; auto; lia. }
     destruct (Hpre 114%N) as (raw & -> & Hraw); [discriminate|].
     destruct (Hpre 102%N) as (fstr & -> & Hfstr); [discriminate|]. clear Hpre.
@@ -337,7 +345,7 @@ Section Buffer.
     destruct Hp1 as (p1 & c & -> & Hc & Hp01 & Hp1n & Hp1n'). rewrite Hc. clear Eid Hraw Hfstr.
     destruct (c =? 0)%N eqn:Ec0.
     { cbn [StepPost Post]. unfold M. cbn [pos set_pos indents unind ttype tval].
-      repeat split; try lia; eauto. intro HH. exfalso. apply HH. reflexivity. }
+      fin. }
     apply N.eqb_neq in Ec0. pose proof (B_nz _ _ Hc Ec0) as Hp1lt.
     destruct (B_some (S p1)) as (b2 & Hb2); [lia|]. rewrite ?Hb2.
     assert (Hb2' : b2 <> 0%N -> S (S p1) <= n) by (intro Hz; pose proof (B_nz _ _ Hb2 Hz); lia).
@@ -362,7 +370,7 @@ Section Buffer.
       { intros tp stk un l' -> Hun'. rewrite Hl in *.
         destruct ((braces st =? 0) && negb (lastEOL st)); cbn [StepPost Post]; unfold Inv, M;
           cbn [pos indents unind ttype tval]; rewrite ?Hl, ?app_length; cbn [length];
-          repeat split; try lia; eauto; intro HH; exfalso; revert HH; neof. }
+          fin. }
       destruct ((ind <? indent st) && (braces st =? 0)).
       - rewrite Hl. destruct (pop_indents_spec ind l (unind st)) as (l' & un' & -> & Hpop).
         destruct l' as [|top l'']; cbn [app].
